@@ -60,6 +60,8 @@ class C08World(C01World):
         self._tl = threading.local()
         self.last_req: Dict[str, str] = {}
         self.lock_ids: Dict[str, Any] = {}
+        self.lock_writer: Any = None
+        self.fence_saw: Dict[str, Any] = {}
         self.validated: Dict[str, str] = {}
         self.cas_log: List[Dict[str, Any]] = []
         w = self
@@ -93,12 +95,23 @@ class C08World(C01World):
                 a = root_actor(req.actor)
                 # who owns the lock object at the commit point, and did this committer read its ownership
                 # (the fence) as its last request before the pointer write?
+                # ownership = the committer whose PUT last wrote the lock object (observed by the harness: the
+                # identifiers inside the object are the library's business and may not be unique)
                 lock_obj = fake.objs.get(f"{self.location}/.locks/metadata.lock")
-                owner = None if lock_obj is None else lock_obj.body.decode().split(":", 1)[0]
+                owner = None if lock_obj is None else self.lock_writer
                 self.cas_log.append({"actor": a, "replaced": self._prev.get(req.idx), "validated": self.validated.get(a),
                                      "conditional": req.cond, "new": fake.objs[req.key].body.decode(),
-                                     "lock_owner_at_commit_point": owner, "my_lock_id": self.lock_ids.get(a),
-                                     "previous_request": self.last_req.get(req.actor)})
+                                     "lock_owner_at_commit_point": owner,
+                                     "my_lock_id": a if self.lock_variant == "cas" else None,
+                                     "previous_request": self.last_req.get(req.actor),
+                                     "fence_saw_writer": self.fence_saw.get(a)})
+            if req.key.endswith("/.locks/metadata.lock") and not isinstance(res, BaseException):
+                if req.op == "GET" and "." not in req.actor:
+                    self.fence_saw[req.actor] = self.lock_writer
+                if req.op == "PUT":
+                    self.lock_writer = root_actor(req.actor)
+                elif req.op == "DELETE":
+                    self.lock_writer = None
             if "." not in req.actor:
                 self.last_req[req.actor] = req.label() + (" FAILED" if isinstance(res, BaseException) else "")
 
@@ -139,6 +152,8 @@ class C08World(C01World):
         self._prev = {}
         self.last_req = {}
         self.lock_ids = {}
+        self.lock_writer = None
+        self.fence_saw = {}
         self.partitioned = set()
         if self.lock_variant == "cas":
             for i in range(len(self.ops)):
@@ -170,7 +185,7 @@ class C08World(C01World):
         nothing only delays it (covered by ordinary scheduling), and time passing under somebody else's live lease is
         the clock-jump deviation."""
         o = self.s3w.s3.objs.get(f"{self.location}/.locks/metadata.lock")
-        return o is not None and o.body.decode().split(":", 1)[0] == self.lock_ids.get(name)
+        return o is not None and self.lock_writer == name
 
     def apply_extra(self, ex: Execution, opt: Tuple) -> None:
         kind, name = opt
@@ -208,6 +223,10 @@ class C08World(C01World):
                 if not (prev.startswith("GET") and prev.endswith("metadata.lock")):  # a FAILED read proves nothing
                     problems.append(f"{c['actor']} advanced the pointer after losing its lock without re-checking ownership "
                                     f"before the commit point")
+                elif c.get("fence_saw_writer") != c["actor"]:
+                    # the ownership read itself already returned a lock object written by another committer
+                    problems.append(f"{c['actor']} advanced the pointer although its ownership read returned a lock object "
+                                    f"written by {c.get('fence_saw_writer')}")
         for a in ex.actors:
             if "." in a.name:
                 continue
